@@ -119,6 +119,12 @@ def monitor_(rec, params, confs=None):
                 if p is None:
                     continue
                 qp = p['charge']
+                if p['type'] == 'ION':
+                    # the formal charge of an ion is the one configured for the residue name it has in the file (table of the
+                    # statement, gen.IONS; C01 checks it against the shipped parameter file), not what the group object carries
+                    qp = gen.IONS.get(pkey.split(':')[2].strip(), qp)
+                    if abs(p['charge'] - qp) > 1e-9:
+                        v.append(('ion-charge-not-configured-value/%s' % pkey.split(':')[2].strip(), '%s carries charge %r, configured %r' % (pkey, p['charge'], qp)))
                 seen.add((g['type'], p['type'], 'coulomb', val > 0))
                 if q and qp and abs(val) > 1e-12:
                     opposite = q * qp < 0
